@@ -230,4 +230,178 @@ example :
     some (.ok ⟨[0x50,0x52,0x4F,0x58,0x59,0x20,0x55,0x4E,0x4B,0x4E,0x4F,0x57,0x4E,0x0D,0x0A], .unknown⟩) := by
   decide
 
+/-! ## Audit additions: exact hypotheses, the text entry point, and why US-ASCII is needed -/
+
+/-- **v1, text, no US-ASCII hypothesis.** Every proper prefix of the header of an input accepted
+by `TryFrom<&str>` is incomplete: the window of a proper prefix is the whole prefix, and its end
+is always a character boundary. -/
+theorem v1_str_prefix_incomplete' {x : B} {h : V1.Header} (hp : V1.parseStr x = .ok h) (n : Nat)
+    (hn : n < h.header.length) : isIncompleteV1Str (V1.parseStr (x.take n)) = true := by
+  obtain ⟨rest, hx, hlen, hl⟩ := C01.str_accept_line hp
+  rw [hx]
+  obtain ⟨e, he, hinc⟩ :=
+    V1.Prefix.parseStr_prefix_incomplete' V1.ip6Model (fun _ _ h => h) hl hlen rest n hn
+  rw [he]; exact hinc
+
+/-- **v1, bytes, exact condition.** A proper prefix of an accepted line that is itself valid
+UTF-8 (the cut is on a character boundary; automatic for US-ASCII lines) is incomplete. -/
+theorem v1_bytes_prefix_incomplete' {x : B} {h : V1.Header} (hp : V1.parseBytes x = .ok h) (n : Nat)
+    (hn : n < h.header.length) (hv : Utf8.valid (x.take n) = true) :
+    isIncompleteV1 (V1.parseBytes (x.take n)) = true := by
+  obtain ⟨rest, hx, hlen, hl⟩ := v1_accepted_shape hp
+  rw [hx] at hv ⊢
+  obtain ⟨e, he, hinc⟩ :=
+    V1.Prefix.parseBytes_prefix_incomplete' V1.ip6Model (fun _ _ h => h) hl hlen rest n hn hv
+  rw [he]; exact hinc
+
+/-- **v1, bytes, the complement.** A proper prefix of an accepted line that is *not* valid UTF-8
+(a cut inside a multi-byte character) is the terminal error `InvalidUtf8`: the US-ASCII
+restriction in the property text is tight. -/
+theorem v1_bytes_prefix_invalidUtf8 {x : B} {h : V1.Header} (hp : V1.parseBytes x = .ok h) (n : Nat)
+    (hn : n < h.header.length) (hv : Utf8.valid (x.take n) = false) :
+    V1.parseBytes (x.take n) = .error .invalidUtf8 ∧
+      isIncompleteV1 (V1.parseBytes (x.take n)) = false := by
+  obtain ⟨rest, hx, hlen, hl⟩ := v1_accepted_shape hp
+  rw [hx] at hv ⊢
+  have := V1.Prefix.parseBytes_prefix_invalidUtf8 V1.ip6Model (fun _ _ h => h) hl hlen rest n hn hv
+  rw [this]
+  exact ⟨rfl, rfl⟩
+
+/-- The two cases together: a proper prefix of an accepted line is incomplete **iff** it is valid
+UTF-8. -/
+theorem v1_bytes_prefix_incomplete_iff {x : B} {h : V1.Header} (hp : V1.parseBytes x = .ok h)
+    (n : Nat) (hn : n < h.header.length) :
+    isIncompleteV1 (V1.parseBytes (x.take n)) = Utf8.valid (x.take n) := by
+  cases hv : Utf8.valid (x.take n) with
+  | true => exact v1_bytes_prefix_incomplete' hp n hn hv
+  | false => exact (v1_bytes_prefix_invalidUtf8 hp n hn hv).2
+
+/-- `PROXY UNKNOWN é\r\n` (the `é` is `C3 A9`). -/
+def unkE : B :=
+  [0x50,0x52,0x4F,0x58,0x59,0x20,0x55,0x4E,0x4B,0x4E,0x4F,0x57,0x4E,0x20,0xC3,0xA9,0x0D,0x0A]
+
+/-- **The US-ASCII / valid-prefix restriction is needed.** The non-ASCII line
+`PROXY UNKNOWN é\r\n` is accepted by the byte entry point (and by auto-detection), but its
+15-byte prefix, cut inside `é`, is the *terminal* error `InvalidUtf8` — through
+`HeaderResult::parse` as well — so a receiver that re-parses its buffer gives up on this
+header if a read happens to end there, while the cut after `é` is incomplete as usual. -/
+theorem ascii_restriction_needed :
+    V1.parseBytes unkE = .ok ⟨unkE, .unknown⟩ ∧ Auto.parse unkE = .v1 (.ok ⟨unkE, .unknown⟩) ∧
+    (15 < unkE.length ∧ Utf8.valid (unkE.take 15) = false) ∧
+    V1.parseBytes (unkE.take 15) = .error .invalidUtf8 ∧
+    isIncompleteV1 (V1.parseBytes (unkE.take 15)) = false ∧
+    (Auto.parse (unkE.take 15)).isIncomplete = false ∧
+    receive V1.parseBytes isIncompleteV1 [] [unkE.take 15, unkE.drop 15] =
+      some (.error .invalidUtf8) ∧
+    isIncompleteV1 (V1.parseBytes (unkE.take 16)) = true ∧
+    isIncompleteV1Str (V1.parseStr (unkE.take 16)) = true := by
+  decide
+
+/-- Non-vacuity of `v1_bytes_prefix_invalidUtf8` / `v1_bytes_prefix_incomplete'` (through the
+theorems). -/
+example : V1.parseBytes (unkE.take 15) = .error .invalidUtf8 :=
+  (v1_bytes_prefix_invalidUtf8 (x := unkE) (h := ⟨unkE, .unknown⟩) (by decide) 15 (by decide)
+    (by decide)).1
+example : isIncompleteV1 (V1.parseBytes (unkE.take 16)) = true :=
+  v1_bytes_prefix_incomplete' (x := unkE) (h := ⟨unkE, .unknown⟩) (by decide) 16 (by decide)
+    (by decide)
+/-- The text entry point needs no restriction (a `&str` buffer cannot be cut inside `é`, but the
+model statement holds for every cut). -/
+example (n : Nat) (hn : n < 18) : isIncompleteV1Str (V1.parseStr (unkE.take n)) = true :=
+  v1_str_prefix_incomplete' (x := unkE) (h := ⟨unkE, .unknown⟩) (by decide) n hn
+
+/-- **`FromStr for Header`**: every proper prefix of the accepted header is incomplete. -/
+theorem fromStrHeader_prefix_incomplete {x : B} {h : V1.Header} (hp : V1.fromStrHeader x = .ok h)
+    (n : Nat) (hn : n < h.header.length) :
+    isIncompleteV1Str (V1.fromStrHeader (x.take n)) = true := by
+  simp only [C01.fromStrHeader_eq] at hp ⊢
+  exact v1_str_prefix_incomplete' hp n hn
+
+/-- **`FromStr for Addresses`**: the result carries no header, so the statement is in terms of
+the line `x` starts with (through the byte after its first CR): parsing any shorter prefix
+fails with an incomplete error. -/
+theorem fromStrAddresses_prefix_incomplete {x : B} {a : V1.Addresses}
+    (hp : V1.fromStrAddresses x = .ok a) :
+    ∃ c, V1.firstCR x = some c ∧ c + 1 < x.length ∧
+      ∀ n, n < c + 2 → ∃ e, V1.fromStrAddresses (x.take n) = .error e ∧ e.isIncomplete = true := by
+  unfold V1.fromStrAddresses at hp
+  cases hs : V1.parseStr x with
+  | error e => rw [hs] at hp; cases hp
+  | ok h =>
+    obtain ⟨c, rest, -, hlen, h1, h2, -⟩ := C04.v1_accepted_frozen_str hs
+    refine ⟨c, h1, h2, ?_⟩
+    intro n hn
+    have hinc := v1_str_prefix_incomplete' hs n (by omega)
+    cases hq : V1.parseStr (x.take n) with
+    | ok h' => rw [hq] at hinc; cases hinc
+    | error e =>
+      rw [hq] at hinc
+      exact ⟨e, by simp only [V1.fromStrAddresses, hq], hinc⟩
+
+example : ∃ e, V1.fromStrAddresses (unkE.take 15) = .error e ∧ e.isIncomplete = true := by
+  obtain ⟨c, h1, -, h3⟩ := fromStrAddresses_prefix_incomplete (x := unkE) (a := .unknown) (by decide)
+  have : c = 16 := by
+    have : V1.firstCR unkE = some 16 := by decide
+    rw [this] at h1; cases h1; rfl
+  subst this
+  exact h3 15 (by omega)
+
+/-- **v1 text history form.** A receiver built on `TryFrom<&str>` that re-parses its growing
+buffer ends with the same header as a one-shot parse, for every accepted line (US-ASCII or not),
+every trailing payload such that the whole stream is a `&str`, and every split into reads.
+(For the buffers to *be* `&str`s in the crate the reads must be cut on character boundaries; the
+statement about the model does not need that hypothesis, only that the header is not followed by
+a continuation byte, which `Utf8.valid (x ++ payload)` guarantees.) -/
+theorem streaming_v1_str {x : B} {h : V1.Header} (hp : V1.parseStr x = .ok h) (payload : B)
+    (reads : List B) (hr : reads.flatten = x ++ payload)
+    (hv : Utf8.valid (x ++ payload) = true) :
+    receive V1.parseStr isIncompleteV1Str [] reads = some (.ok h) := by
+  obtain ⟨s, hs, -, hl⟩ := C01.str_accept_line hp
+  have h15 : 15 ≤ h.header.length := (C01.accepted_header_facts_str hp).2.2.2.1
+  -- the header ends on a character boundary of the stream
+  have hb : Utf8.isCharBoundary (h.header ++ (s ++ payload)) h.header.length = true := by
+    apply C01.boundary_after_line hl
+    rw [← List.append_assoc, ← hs]; exact hv
+  apply receive_generic V1.parseStr isIncompleteV1Str (x ++ payload) h.header.length (.ok h)
+  · rw [hs]; simp only [List.length_append]; omega
+  · intro n hn
+    have : (x ++ payload).take n = x.take n := by
+      rw [List.take_append_of_le_length]; rw [hs]; simp only [List.length_append]; omega
+    rw [this]; exact v1_str_prefix_incomplete' hp n hn
+  · intro m hm
+    have : (x ++ payload).take m = h.header ++ ((s ++ payload).take (m - h.header.length)) := by
+      rw [hs, List.append_assoc, List.take_append]
+      rw [List.take_of_length_le hm]
+    rw [this]
+    apply C04.v1_str_header_append hp
+    -- the boundary test looks at one byte only: the first byte after the header, if any
+    generalize hk : m - h.header.length = k
+    cases k with
+    | zero =>
+      rw [List.take_zero, List.append_nil]; exact V1.Prefix.isCharBoundary_length _
+    | succ k =>
+      cases hsp : s ++ payload with
+      | nil => rw [List.take_nil, List.append_nil]; exact V1.Prefix.isCharBoundary_length _
+      | cons b r =>
+        rw [hsp] at hb
+        simp only [Utf8.isCharBoundary, List.take_succ_cons, List.length_append, List.length_cons,
+          byteAt_append_right (Nat.le_refl _), Nat.sub_self, byteAt_cons_zero] at hb ⊢
+        have e1 : (h.header.length == 0) = false := by rw [beq_eq_false_iff_ne]; omega
+        have e2 : ¬ (h.header.length ≥ h.header.length + (r.length + 1)) := by omega
+        have e3 : ¬ (h.header.length ≥ h.header.length + ((r.take k).length + 1)) := by omega
+        simp only [e1, e2, e3, Bool.false_eq_true, if_false] at hb ⊢
+        exact hb
+  · rfl
+  · simpa using hr
+  · simp only [List.length_nil]; omega
+
+/-- Non-vacuity: `PROXY UNKNOWN é\r\n` + `€` delivered as "PROXY UNKNOWN ", "é\r", "\n€". -/
+example :
+    receive V1.parseStr isIncompleteV1Str []
+      [unkE.take 14, [0xC3, 0xA9, 0x0D], [0x0A, 0xE2, 0x82, 0xAC]] = some (.ok ⟨unkE, .unknown⟩) :=
+  streaming_v1_str (x := unkE) (by decide) [0xE2, 0x82, 0xAC] _ (by decide) (by decide)
+/-- The validity hypothesis is needed: a header followed by a continuation byte. -/
+example : receive V1.parseStr isIncompleteV1Str [] [unkE ++ [0x82]] = some (.error .invalidSuffix) := by
+  decide
+
 end C05
